@@ -53,6 +53,25 @@ def error_node_classes(model: Model) -> t.Set[str]:
     return {q for q in model.classes if model.is_subclass(q, 'pane.errors.ErrorNode')}
 
 
+def builds_error_node(model: Model, func: FuncInfo, v: t.Optional[ast.AST], depth: int = 0) -> bool:
+    """``v`` is a constructor call of the ErrorNode family, or a call of a package helper (module-level function or method of the
+    same class) all of whose returns are such constructions: an extracted `_make_error(...)` helper is as good as the constructor."""
+    if not isinstance(v, ast.Call) or depth > 3:
+        return False
+    errs = error_node_classes(model)
+    q = model.resolve(v.func, func.module, func)
+    if q in errs:
+        return True
+    g: t.Optional[FuncInfo] = model.functions.get(q or '')
+    if g is None and isinstance(v.func, ast.Attribute) and isinstance(v.func.value, ast.Name) and func.cls is not None and func.params \
+            and v.func.value.id == func.params[0]:
+        g = model.find_method(func.cls.qualname, v.func.attr)
+    if g is None or g is func or not isinstance(g.node, ast.FunctionDef):
+        return False
+    rets = [x for x in ast.walk(g.node) if isinstance(x, ast.Return) and model.enclosing_function(x) is g]
+    return bool(rets) and all(builds_error_node(model, g, x.value, depth + 1) for x in rets)
+
+
 class Accumulators:
     """Locals initialised to an empty container and filled later (children / extra / seen / values ...)."""
 
@@ -303,11 +322,7 @@ class Extractor:
 
     def _is_error_ctor(self, v: ast.expr, func: FuncInfo) -> bool:
         """Whether ``v`` certainly denotes an error node (a constructor call of the ErrorNode family)."""
-        if isinstance(v, ast.Call):
-            q = self.model.resolve(v.func, func.module, func)
-            if q in self.err_classes:
-                return True
-        return False
+        return builds_error_node(self.model, func, v)
 
     def _helper_ref(self, sub: ast.AST, func: FuncInfo, nz: Normalizer, n: Node, bound: t.Dict[str, str]
                     ) -> t.Tuple[t.Optional[FuncInfo], t.List[str]]:
@@ -676,7 +691,7 @@ def rule_c03_r3(model: Model) -> RuleResult:
                         r.ok()
                     elif isinstance(v, ast.Call):
                         q = model.resolve(v.func, f.module, f)
-                        if q in errs or (isinstance(v.func, ast.Attribute) and ('collect_errors' in v.func.attr)):
+                        if q in errs or builds_error_node(model, f, v) or (isinstance(v.func, ast.Attribute) and ('collect_errors' in v.func.attr)):
                             r.ok()
                         else:
                             r.fail(f.qualname, f"return {unparse(v.func)}(...)", f.loc(n.ast), "the diagnostic pass returns something that is neither None, an error node nor a sub-result")
